@@ -129,10 +129,11 @@ impl Scaled {
         }
         let mut x = self;
         if n < 0 {
-            n = -n;
-            x = -x;
+            // If either negation overflows, so does the product.
+            n = n.checked_neg().ok_or(OverflowError {})?;
+            x = Scaled(x.0.checked_neg().ok_or(OverflowError {})?);
         }
-        if x <= (max_answer - y) / n && -x <= (max_answer + y) / n {
+        if x <= (max_answer - y) / n && x >= -((max_answer + y) / n) {
             Ok(x * n + y)
         } else {
             Err(OverflowError {})
